@@ -18,6 +18,14 @@ theorem validUtf8_ascii (l : Bytes) (h : ascii l) : validUtf8 l = true := by
 theorem decodeText_ascii (l : Bytes) (h : ascii l) : decodeText l = some l := by
   simp [decodeText, validUtf8_ascii l h]
 
+/-- well-formed UTF-8: the text fields the library keeps as encoded bytes (User Identity) may carry any of it -/
+def utf8 (l : Bytes) : Prop := validUtf8 l = true
+
+theorem decodeText_utf8 (l : Bytes) (h : utf8 l) : decodeText l = some l := by
+  simp [decodeText, utf8] at *; exact h
+
+theorem utf8_of_ascii (l : Bytes) (h : ascii l) : utf8 l := validUtf8_ascii l h
+
 /-- no leading and no trailing byte satisfying `p` -/
 def trimmed (p : UInt8 → Bool) (l : Bytes) : Prop := stripLeft p l = l ∧ stripLeft p l.reverse = l.reverse
 
@@ -109,8 +117,8 @@ def SubItem.WF : SubItem → Prop
   | .role rsv uid scu scp => rsv < 256 ∧ uidOk uid ∧ uid.length + 4 < 65536 ∧ scu < 256 ∧ scp < 256
   | .implVersion rsv n => rsv < 256 ∧ ascii n ∧ n.length < 65536
   | .extNeg rsv uid info => rsv < 256 ∧ uidOk uid ∧ 2 + uid.length + info.length < 65536
-  | .userId rsv ty pr p s => rsv < 256 ∧ ty < 256 ∧ pr < 256 ∧ ascii p ∧ ascii s ∧ 6 + p.length + s.length < 65536
-  | .userIdAc rsv r => rsv < 256 ∧ ascii r ∧ 2 + r.length < 65536
+  | .userId rsv ty pr p s => rsv < 256 ∧ ty < 256 ∧ pr < 256 ∧ utf8 p ∧ utf8 s ∧ 6 + p.length + s.length < 65536
+  | .userIdAc rsv r => rsv < 256 ∧ utf8 r ∧ 2 + r.length < 65536
   | .generic ty rsv d => ty < 256 ∧ ty ≠ 0 ∧ ¬ knownSubType ty ∧ rsv < 256 ∧ d.length < 65536
 
 theorem decSub_enc (s : SubItem) (h : s.WF) (rest : Bytes) : decSub (s.enc ++ rest) = some (s, rest) := by
@@ -182,7 +190,7 @@ theorem decSub_enc (s : SubItem) (h : s.WF) (rest : Bytes) : decSub (s.enc ++ re
     have e2 := rd8_u8 pr h3 (be16 p.length ++ (p ++ (be16 s.length ++ (s ++ rest))))
     simp only [u8, List.cons_append, List.nil_append] at e1 e2
     simp [e1, e2, rd16_be16 p.length (by omega), rd16_be16 s.length (by omega),
-      decodeText_ascii p h4, decodeText_ascii s h5]
+      decodeText_utf8 p h4, decodeText_utf8 s h5]
   | userIdAc rsv r =>
     obtain ⟨h1, h2, h3⟩ := h
     have hh := rdHdr4_enc 0x59 rsv (2 + r.length) (by omega) h1 h3 (be16 r.length ++ (r ++ rest))
@@ -190,7 +198,7 @@ theorem decSub_enc (s : SubItem) (h : s.WF) (rest : Bytes) : decSub (s.enc ++ re
     unfold decSub
     simp only [u8, List.cons_append, List.nil_append] at hh ⊢
     simp only [hh]
-    simp [rd16_be16 r.length (by omega), decodeText_ascii r h2]
+    simp [rd16_be16 r.length (by omega), decodeText_utf8 r h2]
   | generic ty rsv d =>
     obtain ⟨h1, h2, h3, h4, h5⟩ := h
     have hh := rdHdr4_enc ty rsv d.length h1 h4 h5 (d ++ rest)
